@@ -441,3 +441,13 @@ def unflatF(flat, shape):
         rem = rem / n if is_z3(rem) or is_z3(n) else rem // n
     idx.append(rem)
     return tuple(idx)
+
+
+def codec_arg(args, kw, allowed=("ascii", "utf-8", "utf8", "UTF-8")):
+    """the codec of an encode()/decode() call: the models cover ASCII text, for which these codecs agree"""
+    enc = args[0] if len(args) > 0 else kw.get("encoding", "utf-8")
+    if len(args) > 1 or "errors" in kw:
+        raise Unsupported("encode/decode with an error handler")
+    if not isinstance(enc, str) or enc not in allowed:
+        raise Unsupported(f"codec {enc!r}")
+    return enc
